@@ -164,7 +164,7 @@ func c04case(c GCase, a *run.Acc, variant int) {
 func c04plan(tier string, seed int64) []run.Job {
 	var jobs []run.Job
 	jobs = append(jobs, run.Job{Family: "corpus"})
-	nr, per := 16, 100
+	nr, per := 16, 320
 	maxNodes := 4
 	if tier == "thorough" {
 		nr, per, maxNodes = 64, 400, 6
